@@ -23,6 +23,7 @@ def register2(E):
     def sl(x):
         """byte/elem list view (list, lo, hi) of Str / SliceRef / Vec"""
         x = deref(x)
+        while isinstance(x, Agg) and len(x.f) == 1 and x.ty not in ('arr', 'tup'): x = deref(x.f[0])
         if isinstance(x, Str): return x.b, 0, len(x.b)
         if isinstance(x, SliceRef): return x.l, x.lo, x.hi
         if isinstance(x, Vec): return x.l, 0, len(x.l)
@@ -166,7 +167,10 @@ def register2(E):
     def _(e, c, a): return Agg([a[0], a[1]], 'std::ops::RangeInclusive')
     @R(r'^Vec::<.*>::extend_from_slice$')
     def _(e, c, a):
-        l, lo, hi = sl(a[1]); deref(a[0]).l.extend(l[lo:hi]); return UNIT
+        l, lo, hi = sl(a[1]); t = deref(a[0])
+        while isinstance(t, Agg) and len(t.f) == 1: t = deref(t.f[0])       # newtype over Vec (BString)
+        if not isinstance(t, Vec): raise EngineError(f'extend_from_slice on {t!r}'[:300])
+        t.l.extend(l[lo:hi]); return UNIT
     @R(r'^(bstr::)?BString::new$|^<(bstr::)?BString as From<.*>>::from$|^<(bstr::)?BString as Default>::default$')
     def _(e, c, a): return Vec(list(sl(a[0])[0][sl(a[0])[1]:sl(a[0])[2]]) if a else [], 'BString')
     @R(r'^<(bstr::)?BString as Deref(Mut)?>::deref(_mut)?$')
